@@ -727,6 +727,7 @@ class Mailbox:
         #
         self.executing_tasks = []
         while True:
+            imap_cmd: IMAPClientCommand | None = None
             try:
                 # Block until we have an IMAP Command that wants to run on this
                 # mailbox.
@@ -821,6 +822,14 @@ class Mailbox:
                     self.name,
                     e,
                 )
+                # The IMAP command we were about to admit is still waiting
+                # on its `ready` event. Hand it the error so it fails now
+                # (eg: `Bad` for a message number outside the mailbox)
+                # instead of waiting to be timed out.
+                #
+                if imap_cmd is not None and not imap_cmd.ready.is_set():
+                    imap_cmd.error = e
+                    imap_cmd.ready.set()
 
     ####################################################################
     #
